@@ -1056,7 +1056,9 @@ class Transiter(Interrupter):
         #find uncommon entry and exit lists associated with transition
         #exits, enters = framing.Framer.Uncommon(framer.actives,far.outline)
         #find uncommon and common entry and exit lists associated with transition
-        exits, enters, reexens = framing.Framer.ExEn(framer.actives, far)
+        # use full outline so frames suspended by a conditional aux are exited too
+        nears = framer.active.outline if framer.active else framer.actives
+        exits, enters, reexens = framing.Framer.ExEn(nears, far)
 
         #check enters, if successful, perform transition
         if not framer.checkEnter(enters, exits):
